@@ -180,6 +180,7 @@ class Real:
         rot=0,
         post=None,
     ):
+        self._kw = dict(name=name, numtype=numtype, xs=xs, ys=ys, L1=L1, shear=shear, L2=L2, ctor=ctor, rot=rot, post=post)
         self.u = uni
         self.name = name
         self.numtype = numtype
@@ -207,6 +208,11 @@ class Real:
         self.size = float(max(xs_[-1] - xs_[0], ys_[-1] - ys_[0])) * float(
             abs(self.det0)
         ) ** 0.5
+
+    def clone(self, **over):
+        kw = dict(self._kw)
+        kw.update(over)
+        return Real(self.u, **kw)
 
     # ---- maps -----------------------------------------------------------
     def coord(self, gi, gj):
@@ -433,7 +439,7 @@ def catalogue(uni, which="quick"):
         Real(uni, name="mixdeg-float", numtype="float", ctor="segments", rot=1,
              shear=(0, 0, F(1, 30))),
         Real(uni, name="cubic-float", numtype="float", ctor="ctrlpoints",
-             L1=ROT345, shear=(0, 0, F(1, 60), F(1, 400))),
+             L1=ROT345, shear=(0, 0, F(1, 60), F(1, 50))),
     ]
     if which != "quick":
         out += [
